@@ -86,13 +86,13 @@ def genuine(level, alg='sha256'):
     return _GEN[(level, alg)]
 
 
-def _wrap_top_assertion(doc):
-    """put the (single) Assertion child of the Response into an EncryptedAssertion element"""
+def _wrap_top_assertion(doc, index=0):
+    """put the index-th top-level Assertion child of the Response into an EncryptedAssertion element"""
     import xmlsec_model as xm
     raw = doc.encode('utf-8')
     root = xm.parse(raw)
     tops = [k for k in root.elems() if k.tag == 'Assertion']
-    a = tops[0]
+    a = tops[index]
     return (raw[:a.start] + b'<saml:EncryptedAssertion>' + raw[a.start:a.end] + b'</saml:EncryptedAssertion>' + raw[a.end:]).decode('utf-8')
 
 
@@ -126,8 +126,9 @@ def replay(case):
             out['tool_mismatch'].append({'k': t['k'], 'i': t['i'], 'tlc': t['ok'], 'standin': got})
     plain_doc = doc
     if case.get('enc'):
-        # the attacker (or the IdP) encrypts the single top-level assertion, whatever it has become, for the SP
-        doc = sb.encrypt_element(_wrap_top_assertion(doc),
+        # the attacker (or the IdP) encrypts one top-level assertion, whatever it has become, for the SP (Seal in SigDoc.tla)
+        tops = [x for x in tree[case['root']]['kids'] if tree[x]['kind'] == 'Asrt']
+        doc = sb.encrypt_element(_wrap_top_assertion(doc, tops.index(case['enc'])),
                                  sb.xp('Response', 'EncryptedAssertion', 'Assertion'), 'kSpEnc1')
         out['doc'] = doc
     for v in case['verdicts']:
@@ -184,7 +185,7 @@ def main():
     if pinned.violated != 'Contract':
         raise fw.Machinery('vacuity control failed: the pinned design should violate the contract')
 
-    # every RSA-SHA algorithm in turn; assertion-level documents with a single top-level assertion also in encrypted form
+    # every RSA-SHA algorithm in turn; assertion-level documents with one or two top-level assertions also with one of them encrypted
     algs = sorted(sb.SIGALG)
     twins = []
     for k, c in enumerate(cases):
@@ -192,12 +193,16 @@ def main():
         if c['level'] == 'assertion':
             tree = dict((nd['n'], nd) for nd in c['tree'])
             rootnd = tree[c['root']]
-            if rootnd['kind'] == 'Resp' and sum(1 for x in rootnd['kids'] if tree[x]['kind'] == 'Asrt') == 1 \
-                    and (c['edits'] <= 1 or any(v['pinned'] != v['model'] for v in c['verdicts']) or chk.rng.random() < 0.15):
-                t = dict(c)
-                t['enc'] = True
-                t['tool'] = []
-                twins.append(t)
+            if c.get('sealable') and (c['edits'] <= 1 or any(v['pinned'] != v['model'] for v in c['verdicts']) or chk.rng.random() < 0.15):
+                for n in sorted(c['sealable']):
+                    t = dict(c)
+                    t['enc'] = n
+                    t['tool'] = []
+                    if len(c['sealable']) > 1:
+                        # plain and decrypted assertions side by side: what the model says about the plain document does not
+                        # carry over; the provenance of the accepted identity is judged
+                        t['verdicts'] = [dict(v, mustReject=False, mustAccept=False) for v in c['verdicts']]
+                    twins.append(t)
     cases = cases + twins
     nacc = 0
     tool_checked = 0
@@ -209,7 +214,7 @@ def main():
             raise fw.Machinery('the stand-in disagrees with XmlSecTool.tla on %s: %s\n%s' % (sh, out['tool_mismatch'], out['doc']))
         tool_checked += len(case['tool'])
         for r in out['cfg']:
-            scn = {'level': case['level'], 'edits': case['edits'], 'shape': sh, 'cfg': r['cfg'], 'enc': bool(case.get('enc')),
+            scn = {'level': case['level'], 'edits': case['edits'], 'shape': sh, 'cfg': r['cfg'], 'enc': case.get('enc') or 0,
                    'alg': case.get('alg')}
             chk.count(scn, nontrivial=r['mustReject'] or r['mustAccept'])
             accepted = r['verdict'] == 'accept'
